@@ -328,7 +328,11 @@ def run_c02(tier):
 
 def run_c05_runtime(tier, v, rng):
     fam = "scope2" if tier == "quick" else "scope3"
-    return run_family("C05", tier, fam, "MC_Container_%s.cfg" % fam, v, rng, timeout=3000)
+    out = [run_family("C05", tier, fam, "MC_Container_%s.cfg" % fam, v, rng, timeout=3000)]
+    # the same graphs reached through generated getters, and with every service re-opened by a second file
+    for f2 in ("scopeg", "scope2m"):
+        out.append(run_family("C05", tier, f2, "MC_Container_%s%s.cfg" % (f2, "" if tier == "quick" else "3"), v, rng, timeout=3000))
+    return out
 
 
 def run_c04(tier):
